@@ -96,6 +96,13 @@ def canon(x):
     return x
 
 
+# How protocol ids become candidate objects (modules that declare NAME_MODES get it varied per case, field `_names`):
+#   'str'    the string prefix+id (default)
+#   'int0'   the int id itself - candidate 0 is falsy (the library's own tests use int candidates)
+#   'empty0' candidate 0 is the empty string (a str, hence inside the documented Candidate type, and falsy), others as 'str'
+NAME_MODE = 'str'
+
+
 class Names:
     """bijection protocol id <-> candidate object used with votelib"""
     def __init__(self, names=None, prefix='c'):
@@ -104,12 +111,60 @@ class Names:
         self.back = {n: i for i, n in enumerate(names)} if names else None
 
     def n(self, i):
-        return self.names[i] if self.names else f'{self.prefix}{i}'
+        if self.names:
+            return self.names[i]
+        if NAME_MODE == 'int0':
+            return i
+        if NAME_MODE == 'empty0' and i == 0:
+            return ''
+        return f'{self.prefix}{i}'
 
     def i(self, name):
         if self.back is not None:
             return self.back[name]
+        if isinstance(name, int) and not isinstance(name, bool):
+            return name
+        if name == '':
+            return 0
         return int(name[len(self.prefix):])
+
+
+def _wrap_name_modes(mod):
+    """modules declaring NAME_MODES: every function taking a case runs under that case's naming mode"""
+    if not getattr(mod, 'NAME_MODES', None) or getattr(mod, '_name_modes_wrapped', False):
+        return
+    import functools
+
+    def wrap(f):
+        @functools.wraps(f)
+        def g(case, *a, **kw):
+            global NAME_MODE
+            old = NAME_MODE
+            NAME_MODE = case.get('_names', 'str') if isinstance(case, dict) else 'str'
+            try:
+                return f(case, *a, **kw)
+            finally:
+                NAME_MODE = old
+        return g
+    for fn in ('impl', 'oracle', 'describe', 'compare', 'model_line', 'signature', 'nontrivial'):
+        if hasattr(mod, fn):
+            setattr(mod, fn, wrap(getattr(mod, fn)))
+    mod._name_modes_wrapped = True
+
+
+def _assign_names(mod, cases):
+    """deterministic in the case itself: about a quarter of the cases use a non-default naming"""
+    modes = getattr(mod, 'NAME_MODES', None)
+    if not modes:
+        return cases
+    for c in cases:
+        if isinstance(c, dict) and '_names' not in c:
+            h = int(hashlib.sha256(json.dumps(strip_case(c), sort_keys=True, default=str).encode()).hexdigest()[:8], 16)
+            alt = [m for m in modes if m != 'str']
+            if alt and h % 4 == 0:
+                c['_names'] = alt[(h // 4) % len(alt)]
+                c.setdefault('_tags', []).append('names:' + c['_names'])
+    return cases
 
 
 def enc_slot(x, names):
@@ -426,6 +481,7 @@ class Runner:
 
 def run_check(pid, tier, seed):
     mod = importlib.import_module(f'props.{pid}')
+    _wrap_name_modes(mod)
     R = Runner(mod, tier, seed)
     rng = random.Random(seed * 1000003 + int(hashlib.sha1(pid.encode()).hexdigest()[:6], 16))
     status = {'translator': None, 'build_ok': None, 'audit': None}
@@ -490,7 +546,7 @@ def run_check(pid, tier, seed):
     corpus = []
     if os.path.exists(corpus_path):
         corpus = [json.loads(l) for l in open(corpus_path) if l.strip()]
-    cases = corpus + list(mod.generate(rng, tier))
+    cases = _assign_names(mod, corpus + list(mod.generate(rng, tier)))
     recs = R.eval_cases(cases, with_model=status['driver_ok'])
     disagreements = [r for r in recs if r['diff']]
     violations = [r for r in recs if r['viol']]
@@ -579,7 +635,7 @@ def run_check(pid, tier, seed):
         while time.time() < t_end and not found:
             round_no += 1
             rng2 = random.Random(seed * 7919 + round_no)
-            extra = list(sfun(rng2, tier)) if sfun else list(mod.generate(rng2, tier))
+            extra = _assign_names(mod, list(sfun(rng2, tier)) if sfun else list(mod.generate(rng2, tier)))
             for c in extra:
                 io = mod.impl(c)
                 v = [(cl, d) for cl, d in (mod.oracle(c, io) or []) if R.signature(c, cl) not in known_sigs]
@@ -660,6 +716,7 @@ def replay(path):
     data = json.load(open(path))
     pid = data['property']
     mod = importlib.import_module(f'props.{pid}')
+    _wrap_name_modes(mod)
     if 'case' not in data:
         print('replay file names broken obligations only:', data.get('no_longer_checks'))
         return 1
